@@ -2,6 +2,7 @@ package main
 
 import (
 	"fmt"
+	"regexp"
 	"strings"
 	"time"
 
@@ -18,8 +19,9 @@ import (
 // tplseq); when two steps do not reproduce it, the failure names the length of the history.
 
 type evalStep struct {
-	expr  string
-	binds []binding
+	expr      string
+	binds     []binding
+	viaTokens bool // SetOriginalTokens(tokens of expr) instead of SetExpression(expr)
 }
 
 var (
@@ -37,8 +39,10 @@ type tplStep struct {
 }
 
 func evalOn(calc *calculator.ExpressionCalculator, st evalStep) string {
-	err := calc.SetExpression(st.expr)
-	if err != nil {
+	if st.viaTokens {
+		// the calculator's SetOriginalTokens drops the parser's error: the outcome is judged on the evaluation
+		calc.SetOriginalTokens(exprTokens(st.expr))
+	} else if err := calc.SetExpression(st.expr); err != nil {
 		return "parse-err " + errCode(err)
 	}
 	vars := variables.NewVariableCollection()
@@ -52,7 +56,11 @@ func evalOn(calc *calculator.ExpressionCalculator, st evalStep) string {
 func evalSeqOp(m string, steps []evalStep) string {
 	parts := make([]string, len(steps))
 	for i, st := range steps {
-		parts[i] = strings.TrimSpace(strRunes(st.expr) + " ; " + bindsStr(st.binds))
+		pre := ""
+		if st.viaTokens {
+			pre = "T"
+		}
+		parts[i] = strings.TrimSpace(pre + strRunes(st.expr) + " ; " + bindsStr(st.binds))
 	}
 	return "evalseq " + m + " " + strings.Join(parts, " ;; ")
 }
@@ -98,6 +106,13 @@ func shrinkHist[T any](hist []T, fresh string, run func([]T) string) []T {
 	return found
 }
 
+var intLexRe = regexp.MustCompile(`(^|[ (,\[])([0-9]+)($|[ ),\]])`)
+
+// quoteIntegers turns the first integer constant standing between blanks / brackets into a string constant
+func quoteIntegers(expr string) string {
+	return intLexRe.ReplaceAllString(expr, "${1}'${2}'${3}")
+}
+
 const reuseSpan = 40 // a long-lived instance serves this many cases, then a new one takes over
 
 func reuseEval(c *Ctx, m string, cur evalStep, fresh string) {
@@ -107,6 +122,13 @@ func reuseEval(c *Ctx, m string, cur evalStep, fresh string) {
 		calc.SetVariantOperations(mgrOf(m))
 		sharedCalc[m] = calc
 		sharedHist[m] = nil
+	}
+	if decoy := quoteIntegers(cur.expr); decoy != cur.expr && c.Rng.Intn(3) == 0 {
+		// a different expression whose tokens, once decoded, spell the same characters ('2' + 3 vs 2 + 3),
+		// handed over as tokens just before
+		d := evalStep{expr: decoy, binds: cur.binds, viaTokens: true}
+		safeCallT(3*time.Second, func() string { return evalOn(calc, d) })
+		sharedHist[m] = append(sharedHist[m], d)
 	}
 	got := safeCallT(3*time.Second, func() string { return evalOn(calc, cur) })
 	c.count("reused-calculator")
@@ -244,6 +266,11 @@ func reuseTpl(c *Ctx, cur tplStep, fresh string) {
 		tplHist = nil
 	}
 	t := sharedTpl
+	if c.Rng.Intn(3) == 0 {
+		// the same text twice in a row: a "nothing changed" short-cut must not change the answer
+		safeCallT(3*time.Second, func() string { return tplOn(t, cur) })
+		tplHist = append(tplHist, cur)
+	}
 	got := safeCallT(3*time.Second, func() string { return tplOn(t, cur) })
 	c.count("reused-template")
 	tplHist = append(tplHist, cur)
@@ -285,6 +312,10 @@ func parseEvalStep(f []string) evalStep {
 	st := evalStep{}
 	if len(f) == 0 {
 		return st
+	}
+	if strings.HasPrefix(f[0], "T") {
+		st.viaTokens = true
+		f[0] = f[0][1:]
 	}
 	st.expr = string(parseRunes(f[0]))
 	for _, b := range f[1:] {
